@@ -214,6 +214,83 @@ def execute(desc):
         s.cleanup()
 
 
+def execute_nested(desc):
+    """A contender that descends from a lock holder: a command executable of a `run` that holds the
+    lock starts a mutating invocation on the same repository (with exactly the environment monorail
+    gave it) - either while its own run still holds the lock, or after that run was SIGKILLed and an
+    unrelated `run` has taken the freed lock. It is an independent invocation like any other and must
+    lose."""
+    kind, api = desc["nested"], desc["api"]
+    s = sc.Scratch("c14n")
+    try:
+        r = sc.Repo(s, "r", TARGETS, commands={"a": {"build": "x"}, "b": {"build": "x"}})
+        r.set_script("a", "build", ["out " + b"first run\n".hex(), "exit 0"])
+        r.set_script("b", "build", ["out " + b"first run b\n".hex(), "exit 0"])
+        if r.mr("run", "-c", "build", env=r.trace_env()).code != 0:
+            raise common.EngineError("seed run failed")
+        r.write("a/new.txt", "x\n")
+        if r.mr("checkpoint", "update", "-p").code != 0:
+            raise common.EngineError("seed checkpoint failed")
+        viol = []
+        c = ctlmod.Controller(s)
+        try:
+            env = s.env(c.env())
+            h1 = c.spawn("holder1", [common.MONORAIL, "run", "-c", "build", "-t", "a", "b"], r.dir, env)
+            if not c.wait(lambda: len(c.waiting()) >= 1 or h1.done(), 15) or h1.done():
+                raise common.EngineError("holder run did not start its commands (exit %s %s)" % (h1.code, h1.err[:200]))
+            contender = c.waiting()[0]
+            holder = h1
+            if kind == "orphan-of-killed-holder":
+                c.kill(h1)
+                c.wait(lambda: h1.done(), 10)
+                h2 = c.spawn("holder2", [common.MONORAIL, "run", "-c", "build", "-t", "a", "b"], r.dir, env)
+                ok = c.wait(lambda: len(c.waiting()) >= 2 or h2.done(), 15)
+                if h2.done() or not ok:
+                    viol.append(("free-lock-not-acquired", "a run started after the holder was SIGKILLed did not get going: exit %s %s" % (h2.code, h2.err[:200])))
+                    return {"evaluations": 1, "nontrivial": 1, "states": [], "transitions": 2,
+                            "violations": [{"sig": sig, "detail": d, "rank": 50, "case": {"c14n": desc}} for sig, d in viol], "sample": desc}
+                holder = h2
+            before = sc.snapshot(os.path.join(r.out_dir(), "tracking"))
+            outfile = os.path.join(s.dir, "nested.json")
+            argv = [common.MONORAIL, "-f", os.path.join(r.dir, "Monorail.json")] + APIS[api]
+            c.send(contender, ["spawn %s %s" % (outfile, "\0".join(argv).encode().hex())])
+            if not c.wait_acks(contender, 30) or not os.path.exists(outfile):
+                raise common.EngineError("nested invocation did not return")
+            res = json.load(open(outfile))
+            err = sc.Result(res["code"], bytes.fromhex(res["out"]), bytes.fromhex(res["err"]))
+            ej = err.err_json() or {}
+            who = "a %s started by a command of %s" % (" ".join(APIS[api]), "the run that holds the lock" if kind == "child-of-holder" else "a SIGKILLed run, while another run holds the lock")
+            if holder.done():
+                raise common.EngineError("the holder ended before the nested invocation was judged")
+            if res["code"] == 0 or ej.get("type") != "server" or "Lock acquisition failed" not in str(ej.get("message")):
+                viol.append(("nested-contender-not-a-lock-error", "%s exited %s with %s" % (who, res["code"], err.err[:200])))
+            after = sc.snapshot(os.path.join(r.out_dir(), "tracking"))
+            if after != before:
+                viol.append(("loser-modified-state", "%s changed <out_dir>/tracking: %s" % (who, sorted(set(after.items()) ^ set(before.items()))[:4])))
+            t_end = time.time() + 20
+            while not holder.done() and time.time() < t_end:
+                c.pump(0.01)
+                for ch in list(c.waiting()):
+                    c.release(ch, 0)
+            if not holder.done():
+                viol.append(("holder-hung", "the holding run did not finish"))
+            return {"evaluations": 1, "nontrivial": 1, "states": [["nested", kind, api]], "transitions": 3,
+                    "violations": [{"sig": sig, "detail": d, "rank": 50, "case": {"c14n": desc}} for sig, d in viol],
+                    "sample": {"nested": kind, "api": api, "nested_exit": res["code"], "holder_exit": holder.code}}
+        finally:
+            c.close()
+    except common.EngineError as e:
+        return {"engine_error": str(e)}
+    except Exception:
+        return {"engine_error": traceback.format_exc()[-1500:]}
+    finally:
+        s.cleanup()
+
+
+def _exec_any(desc):
+    return execute_nested(desc) if "nested" in desc else execute(desc)
+
+
 def scenarios(tier):
     out = []
     names = list(APIS)
@@ -227,25 +304,28 @@ def scenarios(tier):
         for combo in itertools.combinations_with_replacement(names, 3):
             for path in paths3:
                 out.append({"apis": list(combo), "path": path})
+    for kind in ("child-of-holder", "orphan-of-killed-holder"):
+        for api in names:
+            out.append({"nested": kind, "api": api})
     return out
 
 
 def run(prop, tier):
     descs = scenarios(tier)
-    results = common.pmap(execute, descs)
+    results = common.pmap(_exec_any, descs)
     errs = [r["engine_error"] for r in results if "engine_error" in r]
     if errs:
         raise common.EngineError("; ".join(errs[:2]))
     states = set()
     for r, d in zip(results, descs):
         for st in r["states"]:
-            states.add((tuple(d["apis"]), tuple(st)))
+            states.add((tuple(d.get("apis", ["nested"])), tuple(st)))
     agg = {"states": len(states), "transitions": sum(r["transitions"] for r in results),
            "traces_validated_against_impl": len(results), "evaluations": len(results),
            "distinct_nontrivial": sum(r["nontrivial"] for r in results),
            "violations": [v for r in results for v in r["violations"]],
            "samples": [r["sample"] for r in results[:: max(1, len(results) // 5)]][:6], "exhaustive": True,
-           "rule": "contenders: every ordered pair (thorough: plus every multiset of 3) over {run, checkpoint update, checkpoint delete, out delete --all}, all started and held at lock.pre; every maximal sequence of {attempt i, finish holder, kill holder (SIGKILL)}, plus for pairs an attempt that is still in progress (2 s, bind timeout raised to 6 s) when the holder finishes or is killed; each sequence executed from scratch on real processes against a repository with a checkpoint and a completed run; invariants: never two contenders past lock acquisition; an attempt while somebody holds exits non-zero with a server lock error, starts no executable and leaves <out_dir> byte-identical (also compared with its state before any contender was started, as long as no holder has worked); an attempt while nobody holds (initially, after exit, after SIGKILL) acquires at once; states = (contender statuses, holder) per contender tuple"}
+           "rule": "contenders: every ordered pair (thorough: plus every multiset of 3) over {run, checkpoint update, checkpoint delete, out delete --all}, all started and held at lock.pre; every maximal sequence of {attempt i, finish holder, kill holder (SIGKILL)}, plus for pairs an attempt that is still in progress (2 s, bind timeout raised to 6 s) when the holder finishes or is killed; plus contenders that descend from a holder (a command executable of the holding run, or the orphaned executable of a SIGKILLed run while another run holds, starts each of the four APIs with the environment monorail gave it); each sequence executed from scratch on real processes against a repository with a checkpoint and a completed run; invariants: never two contenders past lock acquisition; an attempt while somebody holds exits non-zero with a server lock error, starts no executable and leaves <out_dir> byte-identical (also compared with its state before any contender was started, as long as no holder has worked); an attempt while nobody holds (initially, after exit, after SIGKILL) acquires at once; states = (contender statuses, holder) per contender tuple"}
     by = {}
     for v in agg["violations"]:
         by[v["sig"]] = by.get(v["sig"], 0) + 1
@@ -258,7 +338,7 @@ def run(prop, tier):
 
 def replay(prop, path):
     body = json.load(open(path))
-    r = execute(body["case"]["c14"])
+    r = _exec_any(body["case"].get("c14n") or body["case"]["c14"])
     if "engine_error" in r:
         print("ENGINE:", r["engine_error"])
         return 2
